@@ -126,6 +126,14 @@ def r2_loop_weight(ctx):
     r.check(ok, "shape", "weight(Loop) = weight(body)·iters + c", "Loop weight is %s" % detail, b.where(rets[0][0], rets[0][1]))
 
 
+def _from_loop_state(b, e):
+    """is the root variable of `x.begin` a loop state popped from / read off self.loop_state (whatever the local is called)?"""
+    root = q.root_of(q.novers(e))
+    if not isinstance(root, tuple) or root[0] != "var":
+        return False
+    return any("loop_state" in sig(d[1]) for d in q.var_def_exprs(b, root[1]))
+
+
 def r3_forward_pc(ctx):
     r = ctx.rule("R3", "Executor.pc is only ever increased (by 1 or by a u16 operand) except for the guarded loop-back pc = state.begin with iterations_left −= 1")
     prog = ctx.prog
@@ -156,16 +164,23 @@ def r3_forward_pc(ctx):
                 inc = [t_ for t_ in terms if t_ not in pcs]
                 if len(pcs) == 1 and len(inc) == 1:
                     i = inc[0]
-                    if i[0] == "const" and i[2] >= 0:
+                    if i[0] == "const" and i[2] == 1:
                         r.ok("inc@%s/+%d" % (short, i[2]), "pc += %d" % i[2], where)
+                        continue
+                    if i[0] == "const":
+                        # 'instruction by instruction': the fetch advances by exactly one; +0 re-executes the instruction for ever, +2 skips every other one
+                        r.violation("write@%s/step-not-1" % short, "the program counter is advanced by the constant %s, not by 1" % i[2], where)
                         continue
                     raw_inc = [x for x in (v[1][2], v[1][3])] if v[0] == "field" else []
                     s = sig(i)
+                    if "(try(core::slice::<impl [T]>::get(^self.instrs, ^self.pc)) as Loop).0" in s:
+                        r.violation("write@%s/skip-by-iterations" % short, "a skipped loop advances the program counter by the loop's iteration count, not by its body length", where)
+                        continue
                     if "(try(core::slice::<impl [T]>::get(^self.instrs, ^self.pc)) as " in s and s.split(" as ")[-1][:4] in ("Bez)", "Bnz)", "Jmp)", "Loop"):
                         r.ok("inc@%s/+operand:%s" % (short, s.split(" as ")[-1].split(")")[0]), "pc += unsigned operand (%s)" % s[-30:], where)
                         continue
                 r.violation("write@%s/other-add" % short, "pc := %s" % sig(nf)[:160], where)
-            elif sig(q.novers(nf)).endswith(".begin") and ("state" in sig(q.novers(nf)) or "loop_state" in sig(q.novers(nf))):
+            elif sig(q.novers(nf)).endswith(".begin") and ("state" in sig(q.novers(nf)) or "loop_state" in sig(q.novers(nf)) or _from_loop_state(b, nf)):
                 # loop-back
                 isgate = lambda c: ((c.startswith("Lt(0, ") or c.startswith("Ne(0, ")) and c.endswith(".iterations_left)")) or (c.startswith("Ne(") and c.endswith(".iterations_left, 0)"))   # unsigned: > 0 ⇔ != 0
                 gates = [a for a in q.pick_atoms(b, isgate) if isgate(a[1])]     # `left > 0` or `!(left == 0)` / `left <= 0` negated
